@@ -26,7 +26,17 @@ def full_name(hfile, name):
     return '::'.join(parts + ['verif', name])
 
 
+# harness files that use items of another harness file (the symbolic BuildHasher lives in countminsketch.rs)
+HARNESS_DEPS = {'filters__bloomfilter.rs': ['countminsketch.rs'], 'hash_utils.rs': ['countminsketch.rs']}
+
+
 def prepare_scratch(repo, files=None):
+    if files is not None:
+        files = list(files)
+        for f in list(files):
+            for dep in HARNESS_DEPS.get(f, []):
+                if dep not in files:
+                    files.append(dep)
     """Copy repo (without target/.git) and append harness modules. Returns scratch path."""
     scratch = tempfile.mkdtemp(prefix='verif-kani-')
     subprocess.run(['rsync', '-a', '--exclude', 'target', '--exclude', '.git', repo.rstrip('/') + '/', scratch + '/'], check=True)
